@@ -4,6 +4,8 @@ import AITB.Model.Interp
 import AITB.Model.C12Check
 import AITB.Model.UsefulPoints
 import AITB.Model.WitnessLP
+import AITB.Model.FLPGen
+import AITB.Gen.C15Facts
 import Driver.C12LP
 open AITB AITB.Prune AITB.Interp AITB.C12Check
 
@@ -99,17 +101,46 @@ def Snap.modelRows (s : Snap) : Option (List WitnessLP.Row) :=
     pure (WitnessLP.Row.mk c rel rhs))
 
 /-- does lp_solve's recorded LP coincide with the LP of the model: columns, sense, free column, objective, every row -/
-def Snap.matches (s : Snap) (ncols : Nat) (maxim : Bool) (free : Nat) (obj : Vec) (rows : List WitnessLP.Row) : Bool :=
-  s.ncols == ncols && s.maxim == (if maxim then 1 else 0) && s.unb == [free] &&
+def Snap.matches (s : Snap) (ncols : Nat) (maxim : Bool) (free : List Nat) (obj : Vec) (rows : List WitnessLP.Row) : Bool :=
+  s.ncols == ncols && s.maxim == (if maxim then 1 else 0) && s.unb == free &&
   s.obj.mapM finQ? == some obj && s.modelRows == some rows
 
-/-- lp_solve's answer as `LP::solve(S, &objective)` returns it: variables only for result codes 0 / 1 -/
+/-- lp_solve's answer as `LP::solve(S, &objective)` returns it: variables only for the accept codes (extracted: 0 / 1) -/
 def Snap.answer (s : Snap) (nvars : Nat) : Option (Rat × Vec) :=
-  if s.result == 0 || s.result == 1 then
+  if Gen.lpAcceptCodes.contains s.result then
     match finQ? s.objective, (s.vars.take nvars).mapM finQ? with
     | some o, some v => some (o, v)
     | _, _ => none
   else none
+
+/-- one call of `LP::solve` as its model (`AITB.FLP.lpSolveCalls/lpSolveFinal`, retry and accept codes extracted from the
+    source by tools/extract_c15.py) groups the recorded `::solve` calls: the first attempt, and the second one (first-index
+    pricing on the unscaled model) iff the first result is a retry code.  `first` carries the LP as posed, `last` the answer
+    LP::solve looks at, `attempts` the result codes. -/
+structure SolveCall where
+  first : Snap
+  last : Snap
+  attempts : List Int
+
+/-- `none`: the recorded sequence is not one the model of LP::solve can make (a retry without its second call, or a second
+    attempt on different rows) -/
+def groupSolves : Nat → List Snap → Option (List SolveCall)
+  | _, [] => some []
+  | 0, _ => none
+  | fuel + 1, s0 :: rest =>
+    if FLP.lpSolveCalls Gen.lpRetryCodes s0.result == 2 then
+      match rest with
+      | s1 :: rest' =>
+        if s1.modelRows != s0.modelRows then none else
+        (groupSolves fuel rest').map (fun l => ⟨s0, s1, [s0.result, s1.result]⟩ :: l)
+      | [] => none
+    else (groupSolves fuel rest).map (fun l => ⟨s0, s0, [s0.result]⟩ :: l)
+
+/-- suffix of a clause name: the result codes lp_solve itself gave for the LP (`_lp_solve_says_5_then_2` = NUMFAILURE, retried, INFEASIBLE) -/
+def SolveCall.says (c : SolveCall) : String :=
+  let name := fun (r : Int) => if r == 2 then "infeasible" else if r == 3 then "unbounded" else if r == 5 then "numfailure"
+    else if r == 6 then "userabort" else if r == 25 then "accuracyerror" else if r == 0 then "optimal" else if r == 1 then "suboptimal" else "other"
+  "_then_".intercalate (c.attempts.map name)
 
 /-- largest / smallest non-zero magnitude among the coefficients lp_solve received is at least 2^16 -/
 def Snap.wideRange (s : Snap) : Bool :=
@@ -127,16 +158,16 @@ def wideVecs (vs : List Vec) : Bool :=
 /-- clause name of a missed witness: what lp_solve itself answered for that LP (0/1 = it claims an optimum with delta ≤ 0), and
     whether the LP mixes magnitudes (the regime of the open finding C12-witnesslp-mixed-magnitudes); without a recorded call
     the name of the earlier rounds -/
-def missKind (M : Rat) (sn : Option Snap) : String :=
-  match sn with
+def missKind (M : Rat) (sc : Option SolveCall) : String :=
+  match sc with
   | none => if decide (M < 1000000) then "missed_witness" else "missed_witness_at_magnitude_above_1e6"
-  | some sn =>
-    let what := if sn.result == 0 || sn.result == 1 then "missed_witness" else
-      if sn.result == 2 then "missed_witness_lp_solve_says_infeasible" else
-      if sn.result == 3 then "missed_witness_lp_solve_says_unbounded" else
-      if sn.result == 5 then "missed_witness_lp_solve_says_numfailure" else
-      if sn.result == 25 then "missed_witness_lp_solve_says_accuracyerror" else "missed_witness_lp_solve_fails"
-    if sn.wideRange then what ++ "_at_dynamic_range_above_2p16" else
+  | some sc =>
+    -- the kind names the shape of LP::solve's call (the individual codes are in `SolveCall.says`, printed with the verdict)
+    let acc := Gen.lpAcceptCodes.contains sc.last.result
+    let what := if sc.attempts.length == 1 then
+        (if acc then "missed_witness" else if sc.last.result == 2 then "missed_witness_lp_solve_says_infeasible" else "missed_witness_lp_solve_fails")
+      else (if acc then "missed_witness_after_retry" else "missed_witness_lp_solve_fails_twice")
+    if sc.first.wideRange then what ++ "_at_dynamic_range_above_2p16" else
     if decide (M < 1000000) then what else what ++ "_at_magnitude_above_1e6"
 
 /-- exact, lp_solve-independent answer to the witness question `(best, v)`: `(delta*, belief, multipliers over best)` -/
@@ -312,16 +343,20 @@ def prune : P String := do
   -- L2b, one level down: every LP the real Pruner handed to lp_solve is the LP the WitnessLP model poses for that call
   -- (rows scaled by the common power of two chosen from the first optimal row), and the answer `findWitness` made of
   -- lp_solve's reply is the model's (`deltaValue <= 0` discards it)
-  let a := if !same then a else
-    if snaps.length != calls.length then { a with v := a.v.diffIf true (s!"WitnessLP lp_solve was called {snaps.length} times, the rebuilt loop asks {calls.length} questions") } else
+  -- the recorded `::solve` calls grouped by the model of LP::solve (a retry code is followed by exactly one second attempt)
+  let solves := groupSolves (snaps.length + 1) snaps
+  let scalls : List SolveCall := solves.getD []
+  let a := if solves.isNone then { a with v := a.v.diffIf true (s!"LP::solve recorded lp_solve results {snaps.map (·.result)} are not a sequence its model makes") } else a
+  let a := if !same || solves.isNone then a else
+    if scalls.length != calls.length then { a with v := a.v.diffIf true (s!"WitnessLP LP::solve was called {scalls.length} times, the rebuilt loop asks {calls.length} questions") } else
     (List.range calls.length).foldl (fun (a : Acc) i =>
-      match calls[i]?, snaps[i]? with
-      | some c, some sn =>
+      match calls[i]?, scalls[i]? with
+      | some c, some sc =>
         let st := c.best.foldl WitnessLP.addOptimalRow WitnessLP.reset
         let p := WitnessLP.posed st c.v
-        let rowsOk := sn.matches (S + 2) true S (WitnessLP.lpObjective S) (WitnessLP.lpRows S p)
+        let rowsOk := sc.first.matches (S + 2) true (WitnessLP.lpFree S) (WitnessLP.lpObjective S) (WitnessLP.lpRows S p)
         let a := { a with v := a.v.diffIf (!rowsOk) (s!"WitnessLP lp_rows call={i} rows={c.best.length} scale={ratStr (WitnessLP.usedScale st c.v)}") }
-        let mAns := WitnessLP.findWitness (fun _ => sn.answer S) st c.v
+        let mAns := WitnessLP.findWitness (fun _ => sc.last.answer S) st c.v
         -- (the recorded reply is the real Pruner's, `c.w` the rebuilt loop's own lp_solve run: two optimal vertices may differ)
         { a with v := a.v.diffIf (mAns.isSome != c.w.isSome) (s!"WitnessLP answer call={i} model={mAns.isSome} impl={c.w.isSome}") }
       | _, _ => a) a
@@ -341,9 +376,10 @@ def prune : P String := do
     | none => false)
   let a := match missed.bind (fun i => calls[i]?.map (fun c => (i, c))) with
     | some (i, c) =>
-      let kind := missKind M (if snaps.length == calls.length then snaps[i]? else none)
+      let kind := missKind M (if same && scalls.length == calls.length then scalls[i]? else none)
       let wb := match (candsOf c).find? (fun b => violationOK S eps c.best b c.v) with | some b => showVec b | none => ""
-      let msg := s!"WitnessLP {kind} v={showVec c.v} rows={c.best.length} belief={wb}"
+      let says := match (if same && scalls.length == calls.length then scalls[i]? else none) with | some sc => sc.says | none => "?"
+      let msg := s!"WitnessLP {kind} v={showVec c.v} rows={c.best.length} belief={wb} lp_solve={says}"
       { a with v := a.v.failIf true msg }
     | none => a
   let a := { a with v := a.v.failIf (!(isPermB xs arr) || e > n) "Pruner not_a_permutation" }
@@ -415,15 +451,18 @@ def wlp : P String := do
   let eps := ((k + 1 : Nat) : Rat) * linkSlack M + tiny M
   let st := best.foldl WitnessLP.addOptimalRow WitnessLP.reset
   let vd : Verdict := { tag := if k == 0 then "wlp trivial" else if WitnessLP.usedScale st v != 1 then "wlp scaled" else "wlp" }
-  let vd := vd.diffIf (snaps.length != 2) s!"WitnessLP lp_solve was called {snaps.length} times for 2 questions"
+  let solves := groupSolves (snaps.length + 1) snaps
+  let scalls : List SolveCall := solves.getD []
+  let vd := vd.diffIf solves.isNone s!"LP::solve recorded lp_solve results {snaps.map (·.result)} are not a sequence its model makes"
+  let vd := vd.diffIf (solves.isSome && scalls.length != 2) s!"WitnessLP LP::solve was called {scalls.length} times for 2 questions"
   let vd := ([(0, v, a1), (1, v2, a2)] : List (Nat × Vec × Option Vec)).foldl (fun (vd : Verdict) q =>
     let (i, qv, ans) := q
-    let vd := match snaps[i]? with
-      | some sn =>
+    let vd := match scalls[i]? with
+      | some sc =>
         let p := WitnessLP.posed st qv
-        let vd := vd.diffIf (!(sn.matches (S + 2) true S (WitnessLP.lpObjective S) (WitnessLP.lpRows S p)))
+        let vd := vd.diffIf (!(sc.first.matches (S + 2) true (WitnessLP.lpFree S) (WitnessLP.lpObjective S) (WitnessLP.lpRows S p)))
                     s!"WitnessLP lp_rows question={i} rows={k} scale={ratStr (WitnessLP.usedScale st qv)}"
-        let mAns := WitnessLP.findWitness (fun _ => sn.answer S) st qv
+        let mAns := WitnessLP.findWitness (fun _ => sc.last.answer S) st qv
         vd.diffIf (mAns != ans) s!"WitnessLP answer question={i} model={mAns.isSome} impl={ans.isSome}"
       | none => vd
     if k == 0 then vd else
@@ -436,8 +475,9 @@ def wlp : P String := do
     | none =>
       match exactWitness S best qv with
       | some (_, b, _) =>
-        let kind := missKind M (snaps[i]?)
-        vd.failIf (violationOK S eps best b qv) s!"WitnessLP {kind} v={showVec qv} rows={k} belief={showVec b}"
+        let kind := missKind M (scalls[i]?)
+        let says := match scalls[i]? with | some sc => sc.says | none => "?"
+        vd.failIf (violationOK S eps best b qv) s!"WitnessLP {kind} v={showVec qv} rows={k} belief={showVec b} lp_solve={says}"
       | none => vd) vd
   return renderV vd
 
@@ -541,9 +581,9 @@ def lpi : P String := do
                        compat.map (fun j => i.vals.getD j 0 - dot (sel nonZero (i.pts.getD j [])) (sel nonZero cv))⟩
     -- L2b, one level down: the LP handed to lp_solve is the model's LP (only the LP branch solves one)
     let v := if k ≥ 2 then
-        match snaps with
-        | [sn] => v.diffIf (!(sn.matches (k + 1) false k (List.replicate k 0 ++ [1]) (WitnessLP.interpRows inp))) s!"{comp} lp_rows points={k} states={nonZero.length}"
-        | _ => v.diffIf true s!"{comp} lp_solve was called {snaps.length} times in the LP branch"
+        match groupSolves (snaps.length + 1) snaps with
+        | some [sc] => v.diffIf (!(sc.first.matches (k + 1) false [k] (List.replicate k 0 ++ [1]) (WitnessLP.interpRows inp))) s!"{comp} lp_rows points={k} states={nonZero.length}"
+        | _ => v.diffIf true s!"{comp} LP::solve: recorded lp_solve results {snaps.map (·.result)} are not one call of its model in the LP branch"
       else v.diffIf (!snaps.isEmpty) s!"{comp} lp_solve was called {snaps.length} times on a shortcut branch"
     let tolV0 := ((i.S + i.N + 1 : Nat) : Rat) * Gen.equalToleranceSmall * M + tiny M
     let certified := k ≥ 2 && (match dual with
